@@ -78,6 +78,7 @@ class CohGen:
         self.cur_ns = ()
         self.cur_class = None
         self.cur_templated = False
+        self._directed = False
         self._sigs = []       # parameter lists (type, name) of scalar-only callables generated so far
 
     # ------------------------------------------------------------ names
@@ -430,6 +431,10 @@ class CohGen:
                         if other:
                             a = tuple(S.Arg(S.T(r.choice(other)) if j == i else x.type, self.lname(), None)
                                       for j, x in enumerate(b.args))
+                            if r.random() < 0.5:
+                                # ... plus a defaulted parameter: the shortened form has the arity of the other overload
+                                extra = S.T(r.choice(['double', 'int', 'bool']))
+                                a = a + (S.Arg(extra, self.lname(), self.default_for(extra)),)
                             same_const_as = b.const     # (C++ overload resolution must not depend on the receiver's constness)
                 if f['this_types'] and r.random() < 0.15:
                     # the class itself as parameter type, spelled `This` (by reference, const reference or shared pointer)
@@ -456,7 +461,12 @@ class CohGen:
                     a, ret = self._use_member_param(a, ret, mt[0].name)
                     if ret.k == 'Pair' and not f['templated_method_pair']:
                         ret = S.T('double')
-                if not self._arity_ok(used_names, members, nm, a, 'Method'):
+                # (only the overloads built on purpose - same constness, one parameter of another family - may share an
+                # arity with an existing one: random pairs could be ambiguous for the C++ compiler)
+                self._directed = same_const_as is not None
+                ok = self._arity_ok(used_names, members, nm, a, 'Method')
+                self._directed = False
+                if not ok:
                     continue
                 used_names[nm] = 'method' if mt is None else 'templated'
                 const = True if (nm == 'print' and not f['nonconst_print']) else r.random() < 0.6
@@ -580,12 +590,18 @@ class CohGen:
 
     def _told_apart_by_type(self, a, b):
         """two parameter lists of equal length without defaults that differ in the guard family of one position"""
-        if self.target != 'matlab' or not self.f['same_arity_overloads'] or len(a) != len(b) or not a:
-            return False
-        if any(x.default is not None for x in tuple(a) + tuple(b)):
+        if self.target != 'matlab' or not self.f['same_arity_overloads'] or not a or not b or not self._directed:
             return False
         fa, fb = [self._family(x.type) for x in a], [self._family(x.type) for x in b]
-        return any(p != q and 'object' not in (p, q) and 'enum' not in (p, q) for p, q in zip(fa, fb))
+
+        def arities(x):
+            return set(range(len(x) - sum(1 for y in x if y.default is not None), len(x) + 1))
+        common = arities(a) & arities(b)
+        if 0 in common:
+            return False
+        # every arity both offer (directly or by omitting defaults) must be decided by one parameter's type test
+        return all(any(p != q and 'object' not in (p, q) and 'enum' not in (p, q) for p, q in zip(fa[:m], fb[:m]))
+                   for m in common)
 
     def _arity_ok(self, used, members, nm, a, kind):
         """overloads of one name must have disjoint arity sets (so that dispatch is unambiguous), or - in the MATLAB
